@@ -22,4 +22,60 @@ PROPS = {
         "trusted": ["Model/Bytes, Model/Num, Model/Args, Model/Status, Model/Xfer, Model/RawProto are hand-written models of utils/bytesconv.go, strconv, utils/args.go, goutil status, xfer/xfer.go, socket/protocol.go"],
         "explanation": "theorems quantify over all messages/byte strings/frame sequences; the numbers below are the correspondence sample that ties the model to the code on this run",
     },
+    "C10": {
+        "runner": "c10",
+        "modules": ["Teleport.Props.C10"],
+        "rule": "map cases: the 16 documented rows plus identifiers drawn from VERIF_SEED over [A-Za-z0-9_] (runs of '_', leading/trailing '_', acronyms, digits) with prefixes from a pool ('', '/', 'a/b', '/x/', 'x//y', '..', 'a.b', ...), both mappers; hist cases: random schedules of nested SubRoute groups, Route*/Route*Func registrations of a fixed bank of 23 controller structs and 19 handler functions (names chosen to collide under one or both mappers), SetUnknown* (sometimes through SubRouter.ToRouter()), on a fresh peer in a worker process, then up to 24 requests over a real in-memory connection: every returned name in its own and the other namespace, near misses, empty name, group prefixes. distinct = distinct case line; non-trivial = map case with non-empty prefix or a name containing '_' or an upper-case letter, hist case with at least one returned name",
+        "assumptions": [
+            "Model/Router is hand-written; tied to the code by comparing mapper output, returned names, fatal/ok ending and per-request (status code, handler that ran) on every generated case",
+            "names are byte strings; strings.ToLower modelled on ASCII only; path.Join/Clean, strings.Replace/Trim modelled semantically and compared on every case",
+            "handler makers modelled for well-formed controllers/functions only; reflect lists methods sorted by name",
+            "the conflict exit is os.Exit(1) in erpc.Fatalf: observed as the worker process ending with status 1",
+        ],
+        "trusted": ["Model/Router is a hand-written model of router.go (mappers, toServiceMethods, SubRoute, reg, SetUnknown*, getCall/getPush), context.go bindCall/bindPush (empty-name check, lookup, 404), goutil SnakeString, and the stdlib string/path helpers they call"],
+        "explanation": "theorems quantify over all prefixes/names, all states satisfying the table invariant and all registration histories from a fresh router (induction over the operation list); the numbers are the correspondence sample of this run",
+        "timeout": {"quick": 600, "thorough": 3000},
+    },
+    "C11": {
+        "runner": "c11",
+        "modules": ["Teleport.Props.C11"],
+        "rule": "type-directed values from VERIF_SEED for a bank of 21 plain destination types and 15 form struct types (all integer widths at extremes, strings/[]byte over every byte value and UTF-8, slices and fixed arrays of length 0,1,2,3,5,9, nested/embedded/tagged structs) through the real Marshal/Unmarshal (encoded bytes and decoded value compared with the model, reflect.DeepEqual round-trip oracle); a garbage stream into every destination type under recover with guard bytes around the destination; wrapper arms, registry ids 0..255, byte-slice message bodies; json/xml/protobuf/thrift and float fields only as labelled round-trip TESTS. distinct = distinct case line; non-trivial = round-trip case of a supported type, decode case with non-empty input, wrapper/body/library case",
+        "assumptions": [
+            "Model/Codec is a hand-written model of codec/plain_codec.go, codec/form_codec.go and of the parts of net/url and strconv they call; tied to the code by byte-exact comparison of every encoding and field-exact comparison of every decoded value / error / panic",
+            "json, xml, protobuf and thrift encodings belong to their libraries: the library law is a hypothesis of C11_wrapper_dispatch; the harness measures it and labels that a test",
+            "floats, pointer fields, maps, time.Time fields and non-empty interface destinations are outside the modelled value universe",
+            "int/uint are 64 bit",
+        ],
+        "trusted": ["Model/Codec (with Model/Num, Model/Args.splitEq, Model/Bytes.hexUpper) is a hand-written model of codec/plain_codec.go, codec/form_codec.go, the wrapper switches of codec/{json,xml,protobuf,thrift}_codec.go, codec/codec.go registry ids, socket/message.go MarshalBody/UnmarshalBody, and of net/url + strconv as used by them"],
+        "explanation": "theorems quantify over all values of the model's value universe, all byte strings and all destination types; the numbers are the correspondence sample plus the library round-trip tests",
+        "timeout": {"quick": 600, "thorough": 3000},
+    },
+    "C18": {
+        "runner": "c18",
+        "modules": ["Teleport.Props.C18"],
+        "rule": "histories from VERIF_SEED replayed sequentially on a real in-process peer with the real plugin and on the Lean model: c18conn = 3-24 ops over {connect via ServeConn, server Close, client Close, raw conn close, second Close, Update(MaxConn)}; c18qps = 4-53 ops over {call, push on 3 methods, manual tick of all/total/one bucket, Update}; fixed pre-study histories, bad-interval configs and concurrent stress runs (oracle only). Non-trivial = conn history with a rejection or update (or >=3 ops); qps history with a refusal, tick or update",
+        "assumptions": [
+            "sync/atomic operations are single sequentially consistent steps; int32 counters do not wrap",
+            "Update swapping the limiter pointer concurrently with take is not modelled; histories keep Update sequential",
+            "manual ticks drive the plugin's own startTicker/updateToken; real-time firing is the Go runtime's",
+            "serveListener runs the same two statements as ServeConn; only ServeConn is driven",
+        ],
+        "trusted": ["Model/Overload (CL, QL, OV, Sys, Step/UStep/CStep, qstep, dispatch) is a hand-written model of plugin/overloader/*.go, peer.go ServeConn/serveListener, session.go closeLocked/readDisconnected, and context.go bindCall/handleCall/bindPush/handlePush at decision level"],
+        "explanation": "theorems quantify over all interleavings of any number of takers/releasers/updates (transition system) and all sequential histories; the numbers are the correspondence sample of this run",
+        "timeout": {"quick": 600, "thorough": 3000},
+    },
+    "C12": {
+        "runner": "c12",
+        "modules": ["Teleport.Props.C12"],
+        "rule": "pipes of length 0..257 over the registered ids {1,2,3 (non-commuting test filters), md5, six gzip levels} with repeats, occasionally one unregistered id; payloads empty / 1 byte / around 16 and the MD5 block boundaries / compressible / random / large; every single-byte corruption (3 xor masks) of short packed payloads and sampled positions of long ones; arbitrary bytes into OnUnpack; Append across the 255 limit, AppendFrom, Range, Reset; duplicate Reg, Get/GetByName; hand-built frames naming unregistered ids, damaged md5 frames; real in-process calls with request pipes and handler/plugin AddXferPipe calls, reply pipe read from the wire; RFC 1321 vectors and every length 0..130 for MD5. distinct = distinct case line; non-trivial = every case except xpipe with fewer than 2 filters, xframepack with an empty pipe and skipped/empty sweeps",
+        "assumptions": [
+            "compress/gzip decompression inverts compression and never emits an empty stream (hypothesis of C12_gzip_lawful); measured by the xgzip round-trip oracle, labelled a test",
+            "MD5 collision-freeness is a hypothesis of C12_md5_detects_content_change only (h x' != h x on that pair)",
+            "crypto/md5 = Model/Md5.sum: compared on the RFC 1321 vectors, every length 0..130 and every generated payload",
+            "a filter's ID() equals the id it is registered under",
+        ],
+        "trusted": ["Model/Md5 (MD5), Model/XferMd5 (md5.go, gzip.go structure, xfer.go Reg/Get/GetByName/Append-as-coded/AppendFrom/Range/Reset, context.go AddXferPipe + handleCall pipe order), Model/Xfer, Model/RawProto are hand-written models; Drv/TestFilters + harness filters.go define the three test filters on both sides"],
+        "explanation": "theorems quantify over all pipes, payloads, hashes with 16-byte digests and registries; the numbers are the correspondence sample of this run",
+        "timeout": {"quick": 600, "thorough": 3000},
+    },
 }
